@@ -215,3 +215,32 @@ func Always() []string {
 	out := append([]string{}, Pinned...)
 	return append(out, HeredocLast...)
 }
+
+// Regress reads the pinned regression corpus of a property: <root>/corpus/<id>/regress.txt, one Go-quoted string per line
+// ('#' lines are comments). root = $VERIF_ROOT, else the parent of the directory holding the executable, else /verif.
+func Regress(id string) []string {
+	root := os.Getenv("VERIF_ROOT")
+	if root == "" {
+		if exe, err := os.Executable(); err == nil {
+			root = filepath.Dir(filepath.Dir(exe))
+		}
+	}
+	b, err := os.ReadFile(filepath.Join(root, "corpus", id, "regress.txt"))
+	if err != nil {
+		b, err = os.ReadFile(filepath.Join("/verif/corpus", id, "regress.txt"))
+		if err != nil {
+			return nil
+		}
+	}
+	var out []string
+	for _, line := range strings.Split(string(b), "\n") {
+		line = strings.TrimSpace(line)
+		if line == "" || strings.HasPrefix(line, "#") {
+			continue
+		}
+		if s, err := strconv.Unquote(line); err == nil {
+			out = append(out, s)
+		}
+	}
+	return out
+}
